@@ -825,7 +825,8 @@ def oracles_sync_properties(op, S0, S1, out, stats):
     in_paths = [a.split(".") for a, _ in op["pairs"]]
     out_paths = [b.split(".") for _, b in op["pairs"]]
     r_in = [resolver.resolve(tin, p) for p in in_paths]
-    r_out = [resolver.resolve(tout, p) for p in out_paths]
+    # an output address with an empty component ("Target.", ".Target") names nothing: it does not resolve
+    r_out = [None if "" in p else resolver.resolve(tout, p) for p in out_paths]
     resolvable = all(r is not None for r in r_in) and all(r is not None for r in r_out)
     addr_kinds = [_addr_kind(r, p) for r, p in zip(r_out, out_paths)]
     in_kinds = []
